@@ -183,9 +183,15 @@ pub fn build(kind: Kind, label: &str, adaptive: [bool; 3], trade_enable_in: Opti
     let fro = label.ends_with("-fro");
     let mut geoms = geoms;
     if fro {
+        geoms[0] = PoolGeom { ts: 32768, fee: 3000, dynamic: [false, true, false], narrow: (-425984, 425984), wide: (-425984, 425984), protocol_fee_rate: 300, reward_emissions: 0 };
         geoms[2] = PoolGeom { ts: 32768, fee: 10000, dynamic: [true, true, false], narrow: (-425984, 425984), wide: (-425984, 425984), protocol_fee_rate: 1300, reward_emissions: 0 };
     }
+    let mut tiers_done: Vec<u16> = vec![];
     for g in &geoms {
+        if tiers_done.contains(&g.ts) {
+            continue; // (world "-fro": two pools share the full-range-only tier)
+        }
+        tiers_done.push(g.ts);
         world::must("init_fee_tier", svm::process(&mut l, &world::ix_init_fee_tier(&cfg, funder, g.ts, g.fee)));
     }
     if adaptive.iter().any(|x| *x) {
@@ -302,6 +308,16 @@ pub const LIQ: [(u128, u128); 3] = [(1_000_000_000, 300_000_000), (200_000_000, 
 
 pub fn roots(w: &W3) -> Vec<(&'static str, Vec<Op3>)> {
     let mut fund = vec![];
+    if w.name.ends_with("-fro") {
+        // pool 0: deep full-range liquidity (it can deliver whatever draining pool 2 costs); pool 2: next to nothing, so an
+        // exact-out request runs it to the price bound for an affordable input
+        let liq: [(u128, u128); 3] = [(10_000_000_000_000, 1_000_000_000_000), LIQ[1], (100, 50)];
+        for p in 0..3u8 {
+            fund.push(Op3 { pool: p, op: Op::Inc { pos: 0, liq: liq[p as usize].0, v2: p == 1 } });
+            fund.push(Op3 { pool: p, op: Op::Inc { pos: 1, liq: liq[p as usize].1, v2: true } });
+        }
+        return vec![("funded", fund)];
+    }
     for p in 0..3u8 {
         let v2 = !w.v1_capable() || p == 1;
         fund.push(Op3 { pool: p, op: Op::Inc { pos: 0, liq: LIQ[p as usize].0, v2 } });
